@@ -828,7 +828,7 @@ def create_dobs_string(obsl, name, spec='dobs v1.0', origin='', symbol=[], who=N
             if allcov[cname].shape == ():
                 ncov = 1
                 covd['layout'] = '1 1 f'
-                covd['#data'] = '%1.14e' % (allcov[cname])
+                covd['#data'] = '%1.16e' % (allcov[cname])
             else:
                 shape = allcov[cname].shape
                 assert (shape[0] == shape[1])
@@ -841,7 +841,7 @@ def create_dobs_string(obsl, name, spec='dobs v1.0', origin='', symbol=[], who=N
                         if val == 0:
                             ds += '0 '
                         else:
-                            ds += '%1.14e ' % (val)
+                            ds += '%1.16e ' % (val)
                     ds += '\n'
                 covd['#data'] = ds
 
@@ -853,7 +853,7 @@ def create_dobs_string(obsl, name, spec='dobs v1.0', origin='', symbol=[], who=N
                     if cname in o.covobs:
                         val = o.covobs[cname].grad[i].item()
                         if val != 0:
-                            ds += '%1.14e ' % (val)
+                            ds += '%1.16e ' % (val)
                         else:
                             ds += '0 '
                     else:
